@@ -47,9 +47,9 @@ func RefDecodeMessage(bz []byte) (RefMessage, bool) {
 }
 
 type RefBurn struct {
-	Version                 uint32
+	Version                  uint32
 	Token, Recipient, Sender []byte
-	Amount                  *big.Int
+	Amount                   *big.Int
 }
 
 func RefEncodeBurn(b RefBurn) []byte {
@@ -75,8 +75,8 @@ func RefDecodeBurn(bz []byte) (RefBurn, bool) {
 // ---- abstract <-> concrete wire messages -------------------------------------------------
 
 type Codec struct {
-	T      *SymTab
-	rawRev map[string][2]int
+	T        *SymTab
+	rawRev   map[string][2]int
 	shortRev map[string][2]int
 }
 
